@@ -170,12 +170,17 @@ func table() []mech {
 		}, Overrides: []map[string]any{m(`{"cache_ttl":"5s"}`), m(`{"allow_fallback_on_error":true}`)},
 			Headers: []vkit.HeaderKV{{Name: "X-Session", Value: "s1"}, {Name: "X-Tenant", Value: "t1"}}},
 		{Name: "cel", Category: "authorizer", Type: "cel", Proto: func() config.MechanismConfig { return m(`{"expressions":[{"expression":"true"}]}`) },
-			Overrides: []map[string]any{m(`{"expressions":[{"expression":"Subject.ID == 'nobody'"}]}`), m(`{"expressions":[{"expression":"Subject.ID == 'anon'"},{"expression":"true"}]}`)}},
+			Overrides: []map[string]any{m(`{"expressions":[{"expression":"Subject.ID == 'nobody'"}]}`), m(`{"expressions":[{"expression":"Subject.ID == 'anon'"},{"expression":"true"}]}`),
+				// the same expression text in several variants: with different messages and at different positions
+				m(`{"expressions":[{"expression":"Subject.ID == 'nobody'","message":"variant three says no"}]}`),
+				m(`{"expressions":[{"expression":"Subject.ID == 'nobody'","message":"variant four says no"}]}`),
+				m(`{"expressions":[{"expression":"true"},{"expression":"Subject.ID == 'nobody'"}]}`)}},
 		{Name: "remote", Category: "authorizer", Type: "remote", Proto: func() config.MechanismConfig {
 			return config.MechanismConfig{"endpoint": ep("/authz"), "payload": `{"s":"{{ .Subject.ID }}","v":"{{ .Values.a }}"}`, "values": m(`{"a":"proto-a","b":"proto-b"}`),
 				"expressions": []any{m(`{"expression":"Payload.level >= 1"}`)}, "forward_response_headers_to_upstream": []any{"X-Remote-Echo"}}
 		}, Overrides: []map[string]any{m(`{"payload":"other {{ .Values.b }}"}`), m(`{"values":{"a":"override-a"}}`), m(`{"values":{"c":"new"}}`),
-			m(`{"expressions":[{"expression":"Payload.level >= 5"}]}`), m(`{"forward_response_headers_to_upstream":["X-Other"]}`), m(`{"cache_ttl":"5s"}`)}},
+			m(`{"expressions":[{"expression":"Payload.level >= 5"}]}`), m(`{"forward_response_headers_to_upstream":["X-Other"]}`), m(`{"cache_ttl":"5s"}`),
+			m(`{"expressions":[{"expression":"Payload.level >= 5","message":"level too low"}]}`), m(`{"expressions":[{"expression":"Payload.level >= 1"},{"expression":"Payload.level >= 5"}]}`)}},
 		{Name: "generic_ctx", Category: "contextualizer", Type: "generic", Proto: func() config.MechanismConfig {
 			return config.MechanismConfig{"endpoint": ep("/ctx"), "payload": `{"s":"{{ .Subject.ID }}","v":"{{ .Values.a }}"}`, "values": m(`{"a":"proto-a"}`),
 				"forward_headers": []any{"X-Tenant"}, "cache_ttl": "0s"}
@@ -206,6 +211,8 @@ func (r ruleRef) path() string { return fmt.Sprintf("/m%d/v%d", r.Mech, r.Varian
 
 func buildWorld(tab []mech, refs []ruleRef) (*vkit.World, error) {
 	conf := vkit.DefaultConf()
+	// verbose error answers: the message a variant gives for a refusal is part of its behaviour
+	conf.Serve.Decision.Respond.Verbose = true
 	p := conf.Prototypes
 	p.Authenticators = []config.Mechanism{{ID: "anon", Type: "anonymous", Config: config.MechanismConfig{"subject": "anon"}},
 		{ID: "failing", Type: vkit.ProbeType, Config: config.MechanismConfig{"outcome": "authn"}}}
@@ -331,7 +338,12 @@ func behaviour(w *vkit.World, tab []mech, ref ruleRef, callLog *[]string) string
 		}
 	}
 
-	return fmt.Sprintf("status=%d headers=%s remote=%v", resp.Status, vkit.HeaderSummary(h), calls)
+	body := ""
+	if resp.Status != 200 {
+		body = string(resp.Body)
+	}
+
+	return fmt.Sprintf("status=%d headers=%s remote=%v body=%s", resp.Status, vkit.HeaderSummary(h), calls, body)
 }
 
 func allRefs(tab []mech) []ruleRef {
@@ -532,7 +544,17 @@ func TestExecutionDoesNotChangeMechanisms(t *testing.T) {
 
 		for r := 0; r < rounds; r++ {
 			for _, ref := range execOrder {
-				_ = behaviour(w0, tab, ref, nil)
+				b := behaviour(w0, tab, ref, nil)
+
+				// each rule observes its own overrides: a refusal names the message configured for the failed expression of
+				// this very variant, whatever other variants say about the same expression
+				if msg := configuredMessage(tab, ref); msg != "" && !strings.Contains(b, "status=200") {
+					vkit.S.Label("state.refusal_with_configured_message")
+
+					if !strings.Contains(b, msg) {
+						t.Fatalf("variant %s/%d refuses without the message %q configured for it: %s\nrules: %v", tab[ref.Mech].Name, ref.Variant, msg, b, describe(tab, refs))
+					}
+				}
 			}
 		}
 
@@ -552,6 +574,23 @@ func TestExecutionDoesNotChangeMechanisms(t *testing.T) {
 			t.Fatalf("executing mechanisms changed the state of prototypes or variants:\n%s\nrules: %v", strings.Join(d, "\n"), describe(tab, refs))
 		}
 	})
+}
+
+// configuredMessage: the message of the first expression of a variant's override, if it has one.
+func configuredMessage(tab []mech, ref ruleRef) string {
+	if ref.Variant < 0 {
+		return ""
+	}
+
+	exprs, _ := tab[ref.Mech].Overrides[ref.Variant]["expressions"].([]any)
+	if len(exprs) != 1 {
+		return ""
+	}
+
+	e, _ := exprs[0].(map[string]any)
+	msg, _ := e["message"].(string)
+
+	return msg
 }
 
 func describe(tab []mech, refs []ruleRef) string {
